@@ -2,6 +2,7 @@
 From CV Require Import Proofs.SchedP5.
 From CV Require Import Model.Base Model.Events Model.Contract Model.Combinators Model.Stats Model.StatsSpec Model.Pipeline
   Proofs.BaseP Proofs.StatsP Proofs.PipelineP Proofs.PipelineP2.
+From CV Require Model.Exit Proofs.ExitP.
 From CV Require Proofs.PipelineP3 Proofs.StatsP3 Proofs.Compose Proofs.SchedP4 Proofs.SchedP7 Model.Sched.
 
 (* the verdict of a Summarize over ANY stream is: a parser error, a final step failure or a final hook
@@ -132,3 +133,14 @@ Theorem C01_verdict_of_every_pipeline_general :
     qfailed q (qfinal tags_of last_own q es) = PipelineP3.qspec tags_of q es.
 Proof. exact PipelineP3.verdict_of_every_pipeline. Qed.
 Print Assumptions C01_verdict_of_every_pipeline_general.
+
+(* THE LAST LINK: `run_and_exit` (Model/Exit.v, tied to src/cucumber.rs:1199-1237 by the `exit` engine) panics — the
+   test binary exits non-zero — exactly when the writer's getters say that execution has failed, and its message has a
+   part for exactly the non-zero ones of failed steps, parsing errors and hook errors *)
+Theorem C01_run_and_exit_panics_iff_failed :
+  forall g, (Exit.run_and_exit g = None <-> g_has_failed g = false) /\
+            (forall parts, Exit.run_and_exit g = Some parts ->
+               g_has_failed g = true /\ parts <> [] /\
+               forall k n, In (k, n) parts <-> (0 < n /\ In (k, n) [(0, g_failed g); (1, g_parsing g); (2, g_hooks g)])).
+Proof. exact ExitP.run_and_exit_panics_iff_failed. Qed.
+Print Assumptions C01_run_and_exit_panics_iff_failed.
